@@ -30,6 +30,7 @@ pub open spec fn bcur(&self) -> OBox { OBox { o0: self.rst0_().oc, n0: self.rst0
 pub open spec fn cfg_ok(&self) -> bool {
     let r0 = self.rst0_(); let i0 = self.ist0_();
     &&& start_ok(r0)
+/*L*/    &&& r0.lvl <= 1   // the exactness part of the proof lives in the strict view
     &&& inb(self.old_(), (r0.oc as usize)..(r0.oe as usize)) && inb(self.new_(), (r0.nc as usize)..(r0.ne as usize))
     &&& (self.inner().relies() ==> self.inner().rely_rel() == self.rel() && start_ok0(i0)
             && i0.oc == r0.oc && i0.nc == r0.nc && i0.oe == r0.oe && i0.ne == r0.ne && i0.lvl == (if r0.lvl >= 2 { 2int } else { 0int }))
@@ -149,7 +150,8 @@ o.after('loop', '''
         self.hist@ == pre.hist@, self.rst0@ == pre.rst0@, self.ist0@ == pre.ist0@, self.old == pre.old, self.new == pre.new,
         rel == pre.rel(), r0 == pre.rst0_(), h == pre.hist_(), bc == pre.bcur(), irel == pre.inner().rely_rel(), i0 == pre.ist0_(),
         pre == *vstd::prelude::old(self), pre.inv(), wf(pre.rst()),
-        ops_full(self.old, self.new, ops1, bc, false), r0.lvl >= 2 ==> ops_full(self.old, self.new, ops1, bc, true),
+        ops_full(self.old, self.new, ops1, bc, false),
+        r0.lvl >= 2 ==> ops_full(self.old, self.new, ops1, bc, true),   // [C11]
         esum(ops1, ops1.len() as int) == pre.rst().eqs - r0.eqs,
         self.d.fobs() == pre.inner().fobs(), self.d.config() == pre.inner().config(),
         !self.d.failed(), self.d.relies() == pre.inner().relies(), self.d.rely_rel() == irel, self.d.accepts_replace() == pre.inner().accepts_replace(),
@@ -194,7 +196,7 @@ proof {
     lemma_run_push(rel, r0, h, e);
     assert(self.hist_().drop_last() =~= h);
     lemma_run_fin::<D>(irel, i0, evs_of(ops1));
-    lemma_sum_mono(ops1, 0, ops1.len() as int);
+    lemma_sums_mono(ops1, 0, ops1.len() as int);
 }
 ''', '        ')
 o.save()
